@@ -113,6 +113,8 @@ Section At.
       cbn [local_b lpc]. rewrite Ei. cbn [isSome]. lia.
   Qed.
 
+  Lemma is_getat_not_put c : is_getat c = true -> is_put c = false. Proof. destruct c; cbn; congruence. Qed.
+
   (* ----- toggle: continuations ----- *)
   Definition toggle_fail_thr (x : tctx) (c : call) : thr :=
     match x with XGetAt => TRun c A3L | XPut => TIdle (Some (Err EMemory)) | XSplit _ => TRun c (PP3 0) end.
@@ -195,5 +197,290 @@ Section At.
       + exfalso. cbn [t_order ctx_ok] in L.
         rewrite (toggle_f_put_some s t c _ e I Ht) in Ef; try reflexivity; try lia; [discriminate|exact Ev].
       + exfalso. cbn [t_order] in L. pose proof wf_hord6. lia.
+  Qed.
+
+  Lemma toggle_f_getat c e v' : toggle_f g XGetAt c e = Some v' ->
+    N.land e (t_mask g XGetAt c) = 0 /\ v' = N.lor e (t_mask g XGetAt c).
+  Proof. unfold toggle_f. cbn [t_expected]. destruct (N.eqb_spec (N.land e (t_mask g XGetAt c)) 0); [|discriminate].
+    intros E; inversion E. auto. Qed.
+  Lemma toggle_f_put c e v' : toggle_f g XPut c e = Some v' ->
+    N.land e (t_mask g XPut c) = t_mask g XPut c /\ v' = N.land e (not64 (t_mask g XPut c)).
+  Proof. unfold toggle_f. cbn [t_expected]. destruct (N.eqb_spec (N.land e (t_mask g XPut c)) (t_mask g XPut c)); [|discriminate].
+    intros E; inversion E. auto. Qed.
+
+  (* get_at: the bits of the block are set by one write and the block is handed out *)
+  Lemma getat_alloc6 s t c x0 cur v' : Inv g s -> nth_error (ms_pool s) t = Some x0 ->
+    ghost_of g x0 = gtr (c_huge g c) (c_n c) (t_row g XGetAt c) 0 ->
+    cwf g (ms_frames s) c = true -> small g c = true -> is_getat c = true -> (c_order c <= 6)%nat ->
+    rd_row s (c_huge g c) (t_row g XGetAt c) = Some cur -> cur < W64 ->
+    (forall i, i < 64 -> N.testbit v' i = N.testbit cur i || inb (t_off XGetAt c) (c_n c) i) ->
+    (forall i, inb (t_off XGetAt c) (c_n c) i = true -> N.testbit cur i = false) ->
+    v' < W64 ->
+    Inv g (finish (wr_row s (c_huge g c) (t_row g XGetAt c) v') t c (Ok (c_frame c))).
+  Proof.
+    intros I Ht E Hc Hs Hga H6 Hrd Hcur Hset Hfree Hv. pose proof (is_getat_not_get c Hga) as Hg.
+    destruct (small_call s c Hc Hs Hg I) as (Hh & _ & Hk & Hr & Ho & Hn).
+    destruct (small_call_decomp g wf _ c Hc Hs Hg) as (Ed & _ & _ & Hal & _).
+    pose proof (small_fit6 g (c_frame c) (c_order c) Hal Hk H6) as Hfit. fold (t_off XPut c) in Hfit.
+    rewrite finish_get_row by (destruct c; cbn in *; congruence).
+    rewrite Ed at 2. unfold fidx.
+    apply (inv_alloc_block g wf s t x0 _ _ cur v' _ (c_order c) _ I Ht Hrd Hv Hh Hr Hk H6 Hfit); try assumption.
+    - unfold t_off. pose proof (pow2_nz (c_order c)).
+      change 64 with (pow2 6). rewrite (pow2_split (c_order c) 6), (N.mul_comm (pow2 _)) by lia.
+      apply mod_mod_aligned; [assumption|apply pow2_nz|exact Hal].
+    - apply (pending_gtr0 g x0 _ _ _ E).
+  Qed.
+
+  (* put: the bits of the block are cleared by one write *)
+  Lemma put_release6 s t c x0 cur v' : Inv g s -> nth_error (ms_pool s) t = Some x0 ->
+    ghost_of g x0 = gput (c_huge g c) (c_frame c) (c_n c) 0 ->
+    cwf g (ms_frames s) c = true -> small g c = true -> is_put c = true -> (c_order c <= 6)%nat ->
+    rd_row s (c_huge g c) (t_row g XPut c) = Some cur -> cur < W64 ->
+    (forall i, i < 64 -> N.testbit v' i = N.testbit cur i && negb (inb (t_off XPut c) (c_n c) i)) ->
+    v' < W64 ->
+    Inv g (goto (wr_row s (c_huge g c) (t_row g XPut c) v') t c PS2L).
+  Proof.
+    intros I Ht E Hc Hs Hp H6 Hrd Hcur Hclr Hv. pose proof (is_put_not_get c Hp) as Hg.
+    destruct (small_call s c Hc Hs Hg I) as (Hh & _ & Hk & Hr & Ho & Hn).
+    destruct (put_block_set s t c x0 cur I Ht E Hc Hs Hp H6 Hrd) as [Hfit _].
+    rewrite goto_row.
+    apply (inv_release g s t x0 _ _ _ cur v' (t_off XPut c) (c_n c) I Ht Hrd Hv Hh Hr Hfit); try assumption.
+    - unfold needsC. rewrite E. cbn. rewrite N.eqb_refl. reflexivity.
+    - intros r' i Hr' Hi. rewrite (fr_put6 s c x0 _ r' i E Hc Hs Hp H6 Hr' Hi), N.eqb_refl. gsimp. unfold inb. cbn [andb]. lia.
+    - intros r'. unfold tr. rewrite E. gsimp. unfold inb. lia.
+    - unfold trcount. rewrite E. gsimp. reflexivity.
+    - unfold hfr. rewrite E. gsimp. reflexivity.
+    - unfold pend. rewrite E. gsimp. rewrite N.eqb_refl. lia.
+    - intros h' Hne. constructor; intros; unfold fr, tr, pend, trcount, needsC, hfr; rewrite E; gsimp; unfold inb; try (destr_if; lia).
+      unfold fidx. replace (c_frame c + 64 * 0) with (c_frame c) by lia. replace (c_n c - 64 * 0) with (c_n c) by lia.
+      pose proof (own_block6 g wf _ c h' r i Hc Hs Hg H6 H H0) as Eo. unfold inb, fidx in Eo. rewrite Eo.
+      destruct (N.eqb_spec h' (c_huge g c)); [contradiction|]. cbn. lia.
+    - reflexivity.
+    - cbn [local_b lpc]. lia.
+  Qed.
+
+  Lemma step_TC s t c x e c0 : Inv g s -> nth_error (ms_pool s) t = Some (TRun c (TC x e)) ->
+    Inv g (fst (mstep g s t c0)).
+  Proof.
+    intros I Ht. pose proof (local_of' s t _ I Ht) as L. cbn [local_b lpc] in L.
+    unfold mstep. rewrite Ht. cbv beta iota zeta.
+    assert (Hg : is_get c = false) by (destruct x; cbn [ctx_ok] in L; [apply is_getat_not_get|apply is_put_not_get|apply is_put_not_get]; lia).
+    destruct (small_call s c) as (Hh & He & Hk & Hr & Ho & Hn); try lia; [exact I|].
+    destruct x as [| |old]; [| |exfalso; cbn [t_order] in L; pose proof wf_hord6; lia]; cbn [ctx_ok t_order] in L.
+    - (* get_at *)
+      destruct (has_row g wf s (c_huge g c) (t_row g XGetAt c) I Hh Hr) as (cur & Ev & Hlt). rewrite Ev.
+      destruct (toggle_f g XGetAt c e) as [v'|] eqn:Ef; [|cbn [isSome] in L; lia].
+      destruct (N.eqb_spec cur e) as [->|Hne]; cbn [fst toggle_ok].
+      + destruct (toggle_f_getat c e v' Ef) as [Hz ->].
+        assert (Hfit : t_off XGetAt c + c_n c <= 64).
+        { destruct (small_call_decomp g wf (ms_frames s) c) as (_ & _ & _ & Hal & _); try lia.
+          apply (small_fit6 g (c_frame c) (c_order c) Hal Hk). lia. }
+        apply (getat_alloc6 s t c _ e (N.lor e (t_mask g XGetAt c)) I Ht); try reflexivity; try lia; try assumption.
+        * intros i _. rewrite N.lor_spec. unfold t_mask. rewrite testbit_mask64. reflexivity.
+        * intros i Hi. apply (proj1 (land_mask_zero e (t_mask g XGetAt c)) Hz). unfold t_mask. rewrite testbit_mask64. exact Hi.
+        * apply lor_lt; [exact Hlt|]. apply mask64_lt. exact Hfit.
+      + destruct (toggle_f g XGetAt c cur) eqn:Ef2.
+        * apply (inv_plain g s t _ _ I Ht); [intros h; gsame_tac|reflexivity|].
+          cbn [local_b lpc ctx_ok t_order]. rewrite Ef2. cbn [isSome]. lia.
+        * apply (toggle_fail_plain s t c XGetAt _ I Ht); try reflexivity; cbn [ctx_ok]; lia.
+    - (* put *)
+      destruct (has_row g wf s (c_huge g c) (t_row g XPut c) I Hh Hr) as (cur & Ev & Hlt). rewrite Ev.
+      destruct (toggle_f g XPut c e) as [v'|] eqn:Ef; [|cbn [isSome] in L; lia].
+      destruct (N.eqb_spec cur e) as [->|Hne]; cbn [fst toggle_ok].
+      + destruct (toggle_f_put c e v' Ef) as [Hz ->].
+        apply (put_release6 s t c _ e (N.land e (not64 (t_mask g XPut c))) I Ht); try reflexivity; try lia; try assumption.
+        * intros i Hi. rewrite N.land_spec, not64_spec. unfold t_mask. rewrite testbit_mask64.
+          destruct (N.ltb_spec i 64); [reflexivity|lia].
+        * apply land_lt. exact Hlt.
+      + rewrite (toggle_f_put_some s t c _ cur I Ht); try reflexivity; try lia; [|exact Ev].
+        apply (inv_plain g s t _ _ I Ht); [intros h; gsame_tac|reflexivity|].
+        cbn [local_b lpc ctx_ok t_order].
+        rewrite (toggle_f_put_some s t c _ cur I Ht); try reflexivity; try lia; [|exact Ev]. cbn [isSome]. lia.
+  Qed.
+
+  Lemma step_TN s t c x c0 : Inv g s -> nth_error (ms_pool s) t = Some (TRun c (TN x)) ->
+    Inv g (fst (mstep g s t c0)).
+  Proof.
+    intros I Ht. pose proof (local_of' s t _ I Ht) as L. cbn [local_b lpc] in L.
+    unfold mstep. rewrite Ht. cbv beta iota zeta.
+    assert (Hg : is_get c = false) by (destruct x; cbn [ctx_ok] in L; [apply is_getat_not_get|apply is_put_not_get|apply is_put_not_get]; lia).
+    destruct (small_call s c) as (Hh & He & Hk & Hr & Ho & Hn); try lia; [exact I|].
+    destruct x as [| |old]; cbn [ctx_ok t_order t_expected] in *.
+    - (* get_at *)
+      destruct (has_row g wf s (c_huge g c) (t_row g XGetAt c) I Hh Hr) as (cur & Ev & Hlt). rewrite Ev.
+      assert (Hfit : t_off XGetAt c + c_n c <= 64).
+      { destruct (small_call_decomp g wf (ms_frames s) c) as (_ & _ & _ & Hal & _); try lia.
+        apply (small_fit6 g (c_frame c) (c_order c) Hal Hk). lia. }
+      fold (c_n c).
+      destruct (N.eqb_spec (N.land (N.shiftr cur (t_off XGetAt c)) (ones (c_n c))) 0) as [Hz|Hnz]; cbn [fst toggle_ok].
+      + pose proof (proj1 (lane_zero cur _ _) Hz) as Hfree.
+        apply (getat_alloc6 s t c _ cur _ I Ht); try reflexivity; try lia; try assumption.
+        * intros i _. rewrite testbit_lxor_mask. specialize (Hfree i).
+          destruct (inb (t_off XGetAt c) (c_n c) i); [rewrite Hfree by reflexivity; reflexivity|].
+          rewrite xorb_false_r, orb_false_r. reflexivity.
+        * apply lxor_lt; [exact Hlt|]. apply (mask64_lt (c_n c) (t_off XGetAt c) Hfit).
+      + apply (toggle_fail_plain s t c XGetAt _ I Ht); try reflexivity; cbn [ctx_ok]; lia.
+    - (* put *)
+      destruct (has_row g wf s (c_huge g c) (t_row g XPut c) I Hh Hr) as (cur & Ev & Hlt). rewrite Ev.
+      fold (c_n c).
+      destruct (put_block_set s t c _ cur I Ht) as [Hfit Hset]; try reflexivity; try lia; [exact Ev|].
+      rewrite (proj2 (lane_ones cur _ _) Hset), N.eqb_refl. cbn [fst toggle_ok].
+      apply (put_release6 s t c _ cur _ I Ht); try reflexivity; try lia; try assumption.
+      + intros i _. rewrite testbit_lxor_mask. specialize (Hset i).
+        destruct (inb (t_off XPut c) (c_n c) i); [rewrite Hset by reflexivity; reflexivity|].
+        rewrite xorb_false_r, andb_true_r. reflexivity.
+      + apply lxor_lt; [exact Hlt|]. apply (mask64_lt (c_n c) (t_off XPut c) Hfit).
+    - (* split, HUGE_ORDER = 6: one row *)
+      assert (Hh6 : hord g = 6%nat) by (pose proof wf_hord6; lia).
+      pose proof (ROWS_pow2 g wf) as ER. rewrite Hh6 in ER. change (pow2 (6 - 6)) with 1 in ER.
+      cbn [t_row t_off]. rewrite Hh6. change (pow2 6) with 64.
+      destruct (has_row g wf s (c_huge g c) 0 I Hh ltac:(lia)) as (cur & Ev & Hlt). rewrite Ev.
+      assert (El : N.land (N.shiftr cur 0) (ones 64) = cur).
+      { rewrite N.shiftr_0_r. unfold ones. rewrite N.land_ones. apply N.mod_small. exact Hlt. }
+      rewrite El.
+      destruct (N.eqb_spec cur 0) as [->|Hne]; cbn [fst toggle_ok].
+      + change (N.lxor 0 (N.shiftl (ones 64) 0)) with MAX64. rewrite goto_row.
+        apply (inv_fill_row g s t _ _ (c_huge g c) 0 I Ht Ev Hh ltac:(lia)); [|reflexivity|cbn [local_b lpc]; lia].
+        constructor; intros; gsimp; rewrite ?ER; unfold inb; rewrite ?N.eqb_refl; try lia; destr_if; lia.
+      + apply (toggle_fail_plain s t c (XSplit old) _ I Ht); try reflexivity; cbn [ctx_ok]; lia.
+  Qed.
+
+  (* ----- multi-row toggles ----- *)
+  Lemma fr_put7 s c q x0 h' r' i : ghost_of g x0 = gput (c_huge g c) (c_frame c) (c_n c) q ->
+    cwf g (ms_frames s) c = true -> small g c = true -> is_put c = true -> (7 <= c_order c)%nat ->
+    q <= pow2 (c_order c - 6) -> r' < ROWS -> i < 64 ->
+    fr g h' r' i x0 = b2n ((h' =? c_huge g c) && inb (t_row g XPut c + q) (pow2 (c_order c - 6) - q) r').
+  Proof.
+    intros E Hc Hs Hp H7 Hq Hr Hi. unfold fr. rewrite E. cbn [own_lo own_n gput].
+    rewrite (own_rows7 g wf (ms_frames s) c q h' r' i Hc Hs (is_put_not_get c Hp) H7 Hq Hr Hi). reflexivity.
+  Qed.
+
+  Lemma step_TW s t c x q c0 : Inv g s -> nth_error (ms_pool s) t = Some (TRun c (TW x q)) ->
+    Inv g (fst (mstep g s t c0)).
+  Proof.
+    intros I Ht. pose proof (local_of' s t _ I Ht) as L. cbn [local_b lpc] in L.
+    unfold mstep. rewrite Ht. cbv beta iota zeta.
+    assert (Hg : is_get c = false) by (destruct x; cbn [ctx_ok] in L; [apply is_getat_not_get|apply is_put_not_get|apply is_put_not_get]; lia).
+    destruct (small_call s c) as (Hh & He & Hk & Hr & Ho & Hn); try lia; [exact I|].
+    destruct x as [| |old]; unfold t_nrows in *; cbn [ctx_ok t_order t_expected] in *.
+    - (* get_at *)
+      destruct (toggle_rows_fit g wf (ms_frames s) c) as (E0 & En & Hfit); try lia.
+      destruct (small_call_decomp g wf (ms_frames s) c) as (Ed & _ & _ & Hal & Hin & _); try lia.
+      change (t_row g XGetAt c) with (t_row g XPut c).
+      assert (Hrq : t_row g XPut c + q < ROWS) by lia.
+      destruct (has_row g wf s (c_huge g c) (t_row g XPut c + q) I Hh Hrq) as (cur & Ev & Hlt). rewrite Ev.
+      destruct (N.eqb_spec cur 0) as [->|Hne]; cbn [fst].
+      + destruct (q + 1 <? pow2 (c_order c - 6)) eqn:Eq.
+        * rewrite goto_row.
+          apply (inv_fill_row g s t _ _ (c_huge g c) _ I Ht Ev Hh Hrq); [|reflexivity|].
+          -- constructor; intros; gsimp; change (t_row g XGetAt c) with (t_row g XPut c); unfold inb;
+               rewrite ?N.eqb_refl; try lia; destr_if; lia.
+          -- cbn [local_b lpc ctx_ok]. unfold t_nrows. cbn [t_order]. lia.
+        * cbn [toggle_ok]. rewrite finish_get_row by (apply is_getat_not_put; lia).
+          rewrite Ed at 2. unfold fidx. rewrite E0, N.add_0_r.
+          apply (inv_alloc_rows g wf s t _ (c_huge g c) (t_row g XPut c) q (c_order c) _ I Ht Ev Hh Hrq Hk); [unfold c_n in En; lia|reflexivity|].
+          unfold blk_ok. cbn [fst snd]. rewrite Ed, E0 in Hal, Hin. unfold fidx in Hal, Hin. rewrite N.add_0_r in Hal, Hin.
+          unfold c_n in Hin. apply andb_true_iff. split; [apply N.eqb_eq; exact Hal|apply N.leb_le; exact Hin].
+      + destruct (N.eqb_spec q 0) as [->|Hq].
+        * apply (toggle_fail_plain s t c XGetAt _ I Ht); try reflexivity; cbn [ctx_ok]; lia.
+        * apply (inv_plain g s t _ _ I Ht); [intros h; gsame_tac|reflexivity|].
+          cbn [local_b lpc ctx_ok not_xput]. unfold t_nrows. cbn [t_order]. lia.
+    - (* put: the row is owned, hence full *)
+      destruct (toggle_rows_fit g wf (ms_frames s) c) as (E0 & En & Hfit); try lia.
+      assert (Hrq : t_row g XPut c + q < ROWS) by lia.
+      destruct (has_row g wf s (c_huge g c) (t_row g XPut c + q) I Hh Hrq) as (cur & Ev & Hlt). rewrite Ev.
+      assert (Hfr : forall r' i, r' < ROWS -> i < 64 ->
+                fr g (c_huge g c) r' i (TRun c (TW XPut q)) = b2n (inb (t_row g XPut c + q) (pow2 (c_order c - 6) - q) r')).
+      { intros r' i Hr' Hi. rewrite (fr_put7 s c q (TRun c (TW XPut q)) _ r' i eq_refl) by lia. rewrite N.eqb_refl. reflexivity. }
+      assert (Hnd : needsC g (c_huge g c) (TRun c (TW XPut q)) = 1) by (gsimp; rewrite N.eqb_refl; reflexivity).
+      assert (Hcur : cur = MAX64).
+      { apply row_all_set; [exact Hlt|]. intros i Hi.
+        apply (owned_block g s t _ _ _ cur 0 64 I Ht Ev Hh Hrq ltac:(lia) Hnd); [|unfold inb; lia].
+        intros i' Hi'. rewrite Hfr by (unfold inb in Hi'; lia). unfold inb. lia. }
+      subst cur. rewrite N.eqb_refl. cbn [fst].
+      set (x' := if q + 1 <? pow2 (c_order c - 6) then TRun c (TW XPut (q + 1)) else TRun c PS2L).
+      assert (Hx : (if q + 1 <? pow2 (c_order c - 6) then goto (wr_row s (c_huge g c) (t_row g XPut c + q) 0) t c (TW XPut (q + 1))
+                    else toggle_ok (wr_row s (c_huge g c) (t_row g XPut c + q) 0) t c XPut)
+                   = mk_row s (c_huge g c) (t_row g XPut c + q) 0 t x' (ms_held s)).
+      { unfold x'. destruct (q + 1 <? pow2 (c_order c - 6)); cbn [toggle_ok]; apply goto_row. }
+      rewrite Hx.
+      assert (Gx : ghost_of g x' = gput (c_huge g c) (c_frame c) (c_n c) (q + 1) \/
+                   (q + 1 = pow2 (c_order c - 6) /\ ghost_of g x' = gpend (c_huge g c) (c_n c))).
+      { unfold x'. destruct (q + 1 <? pow2 (c_order c - 6)) eqn:Eq; [left; reflexivity|right; split; [lia|reflexivity]]. }
+      apply (inv_release g s t _ x' (c_huge g c) _ MAX64 0 0 64 I Ht Ev ltac:(unfold W64; lia) Hh Hrq ltac:(lia) Hnd).
+      + intros i Hi. rewrite N.bits_0, testbit_MAX64. unfold inb. lia.
+      + intros r' i Hr' Hi. rewrite (Hfr r' i Hr' Hi).
+        destruct Gx as [Gx|[Eq Gx]]; unfold fr; rewrite Gx.
+        * cbn [own_lo own_n gput]. rewrite (own_rows7 g wf (ms_frames s) c (q + 1) _ r' i) by lia. rewrite N.eqb_refl. unfold inb. lia.
+        * cbn. unfold inb. lia.
+      + intros r'. destruct Gx as [Gx|[Eq Gx]]; unfold tr; rewrite Gx; gsimp; unfold inb; lia.
+      + destruct Gx as [Gx|[Eq Gx]]; unfold trcount; rewrite Gx; gsimp; reflexivity.
+      + destruct Gx as [Gx|[Eq Gx]]; unfold hfr; rewrite Gx; gsimp; reflexivity.
+      + destruct Gx as [Gx|[Eq Gx]]; unfold pend; rewrite Gx; gsimp; rewrite N.eqb_refl; lia.
+      + intros h' Hne. constructor; intros; try (destruct Gx as [Gx|[Eq Gx]]; unfold tr, pend, trcount, needsC, hfr; rewrite Gx; gsimp; unfold inb; destr_if; lia).
+        rewrite (fr_put7 s c q (TRun c (TW XPut q)) _ r i eq_refl) by lia.
+        destruct (N.eqb_spec h' (c_huge g c)); [contradiction|]. cbn [andb b2n].
+        destruct Gx as [Gx|[Eq Gx]]; unfold fr; rewrite Gx.
+        * cbn [own_lo own_n gput]. rewrite (own_rows7 g wf (ms_frames s) c (q + 1) _ r i) by lia.
+          destruct (N.eqb_spec h' (c_huge g c)); [contradiction|]. reflexivity.
+        * cbn. unfold inb. lia.
+      + unfold x'. destruct (q + 1 <? pow2 (c_order c - 6)); reflexivity.
+      + unfold x'. destruct (q + 1 <? pow2 (c_order c - 6)) eqn:Eq; cbn [local_b lpc ctx_ok]; unfold t_nrows; cbn [t_order]; lia.
+    - (* split *)
+      pose proof (ROWS_pow2 g wf) as ER. cbn [t_row]. rewrite N.add_0_l.
+      assert (Hrq : q < ROWS) by lia.
+      destruct (has_row g wf s (c_huge g c) q I Hh Hrq) as (cur & Ev & Hlt). rewrite Ev.
+      destruct (N.eqb_spec cur 0) as [->|Hne]; cbn [fst].
+      + set (x' := if q + 1 <? pow2 (hord g - 6) then TRun c (TW (XSplit old) (q + 1)) else TRun c (PP2 old)).
+        assert (Hx : (if q + 1 <? pow2 (hord g - 6) then goto (wr_row s (c_huge g c) q MAX64) t c (TW (XSplit old) (q + 1))
+                      else toggle_ok (wr_row s (c_huge g c) q MAX64) t c (XSplit old))
+                     = mk_row s (c_huge g c) q MAX64 t x' (ms_held s)).
+        { unfold x'. destruct (q + 1 <? pow2 (hord g - 6)); cbn [toggle_ok]; apply goto_row. }
+        rewrite Hx.
+        apply (inv_fill_row g s t _ x' (c_huge g c) q I Ht Ev Hh Hrq).
+        * unfold x'. destruct (q + 1 <? pow2 (hord g - 6)) eqn:Eq; constructor; intros; gsimp; rewrite ?ER; unfold inb;
+            rewrite ?N.eqb_refl; try lia; destr_if; lia.
+        * unfold x'. destruct (q + 1 <? pow2 (hord g - 6)); reflexivity.
+        * unfold x'. destruct (q + 1 <? pow2 (hord g - 6)) eqn:Eq; cbn [local_b lpc ctx_ok]; unfold t_nrows; cbn [t_order]; lia.
+      + destruct (N.eqb_spec q 0) as [->|Hq].
+        * apply (toggle_fail_plain s t c (XSplit old) _ I Ht); try reflexivity; cbn [ctx_ok]; lia.
+        * apply (inv_plain g s t _ _ I Ht); [intros h; gsame_tac|reflexivity|].
+          cbn [local_b lpc ctx_ok not_xput]. unfold t_nrows. cbn [t_order]. lia.
+  Qed.
+
+  Lemma step_TU s t c x q c0 : Inv g s -> nth_error (ms_pool s) t = Some (TRun c (TU x q)) ->
+    Inv g (fst (mstep g s t c0)).
+  Proof.
+    intros I Ht. pose proof (local_of' s t _ I Ht) as L. cbn [local_b lpc] in L.
+    unfold mstep. rewrite Ht. cbv beta iota zeta.
+    assert (Hg : is_get c = false) by (destruct x; cbn [ctx_ok] in L; [apply is_getat_not_get|apply is_put_not_get|apply is_put_not_get]; lia).
+    destruct (small_call s c) as (Hh & He & Hk & Hr & Ho & Hn); try lia; [exact I|].
+    destruct x as [| |old]; unfold t_nrows in *; cbn [ctx_ok t_order t_expected not_xput] in *; [| exfalso; lia |].
+    - (* get_at *)
+      destruct (toggle_rows_fit g wf (ms_frames s) c) as (E0 & En & Hfit); try lia.
+      change (t_row g XGetAt c) with (t_row g XPut c).
+      assert (Hrq : t_row g XPut c + q < ROWS) by lia.
+      destruct (has_row g wf s (c_huge g c) (t_row g XPut c + q) I Hh Hrq) as (cur & Ev & Hlt). rewrite Ev.
+      set (x' := if q =? 0 then toggle_fail_thr XGetAt c else TRun c (TU XGetAt (q - 1))).
+      destruct (inv_unfill_row g wf s t _ x' (c_huge g c) _ cur I Ht Ev Hh Hrq) as [Hcur Hinv].
+      + unfold x'. destruct (N.eqb_spec q 0) as [->|Hq]; cbn [toggle_fail_thr];
+          constructor; intros; gsimp; change (t_row g XGetAt c) with (t_row g XPut c); unfold inb;
+          rewrite ?N.eqb_refl; try lia; destr_if; lia.
+      + unfold x'. destruct (q =? 0); reflexivity.
+      + unfold x'. destruct (N.eqb_spec q 0) as [->|Hq]; cbn [toggle_fail_thr local_b lpc ctx_ok not_xput]; unfold t_nrows; cbn [t_order]; lia.
+      + subst cur. rewrite N.eqb_refl. cbn [fst]. unfold x' in Hinv.
+        destruct (q =? 0); [rewrite toggle_fail_eq, set_thr_row|rewrite goto_row]; exact Hinv.
+    - (* split *)
+      pose proof (ROWS_pow2 g wf) as ER. cbn [t_row]. rewrite N.add_0_l.
+      assert (Hrq : q < ROWS) by lia.
+      destruct (has_row g wf s (c_huge g c) q I Hh Hrq) as (cur & Ev & Hlt). rewrite Ev.
+      set (x' := if q =? 0 then toggle_fail_thr (XSplit old) c else TRun c (TU (XSplit old) (q - 1))).
+      destruct (inv_unfill_row g wf s t _ x' (c_huge g c) _ cur I Ht Ev Hh Hrq) as [Hcur Hinv].
+      + unfold x'. destruct (N.eqb_spec q 0) as [->|Hq]; cbn [toggle_fail_thr];
+          constructor; intros; gsimp; unfold inb; rewrite ?N.eqb_refl; try lia; destr_if; lia.
+      + unfold x'. destruct (q =? 0); reflexivity.
+      + unfold x'. destruct (N.eqb_spec q 0) as [->|Hq]; cbn [toggle_fail_thr local_b lpc ctx_ok not_xput]; unfold t_nrows; cbn [t_order]; lia.
+      + subst cur. rewrite N.eqb_refl. cbn [fst]. unfold x' in Hinv.
+        destruct (q =? 0); [rewrite toggle_fail_eq, set_thr_row|rewrite goto_row]; exact Hinv.
   Qed.
 End At.
